@@ -33,6 +33,68 @@ def apalache_varint(prop, tier, seed, work):
     return (dict(kind="apalache", module="VarintApa", invariant="Inv", domain="all 2^32 lengths x every continuation of the buffer",
                  outcome="NoError", secs=round(time.time() - t, 1), states=1, transitions=1, evaluations=1, distinct_nontrivial=1), [])
 
+def cursor_model(trees_quick, trees_thorough, sample_quick, extend_quick):
+    """Spec -> implementation for the cursor: TLC explores the implementation-shaped model
+    CursorImpl on the decoded trees of real corner files (checking Refines and LoadBound on every
+    reachable state), prints one operation history per distinct model state, and the histories are
+    replayed on the real cursor over the same files and validated against the Level-A contract."""
+    def run(prop, tier, seed, work):
+        import json, random
+        from vlib import SPEC, OUT, GV, NCPU, ToolError, tlc_mc, gv, validate_family, sample_scenario, file_violation
+        trees = trees_quick if tier == "quick" else trees_thorough
+        cov = dict(kind="model-derived histories", trees=[], states=0, transitions=0, traces_validated_against_impl=0,
+                   events_validated=0, evaluations=0, distinct_nontrivial=0, samples=[])
+        viol = []
+        rnd = random.Random(seed)
+        for t in trees:
+            r = tlc_mc("MCCursor_t%d" % t, "MCCursor_t%d_hist.cfg" % t, "%s-mcc-t%d" % (prop, t), workers=8, timeout=7200)
+            if not r["ok"]:
+                raise ToolError("CursorImpl (as repaired) violates %s on tree t%d" % (r["violated"], t))
+            hists = []
+            for line in r["out"].splitlines():
+                if line.startswith('"HIST '):
+                    body = line[len('"HIST '):-1].replace('\\"', '"')
+                    steps = re.findall(r'<<"(\w+)", (\d+), (-?\d+)>>', body)
+                    hists.append([[a, int(b), int(c)] for a, b, c in steps])
+            nstates = len(hists)
+            if tier == "quick" and len(hists) > sample_quick:
+                hists = rnd.sample(hists, sample_quick)
+            hists.sort(key=len)
+            d = os.path.join(work, "hist-t%d" % t)
+            os.makedirs(d, exist_ok=True)
+            # histories replayed as they are ...
+            docs = [("plain", hists, [])]
+            # ... and (a subset in quick, all in thorough) with every operation x probe tried from the state reached
+            ext = hists if tier == "thorough" else rnd.sample(hists, min(extend_quick, len(hists)))
+            docs.append(("extend", ext, ["--extend"]))
+            for tag, hs, extra in docs:
+                dd = os.path.join(d, tag)
+                os.makedirs(dd, exist_ok=True)
+                with open(os.path.join(dd, "h.json"), "w") as f:
+                    json.dump({"corner": t, "hists": hs}, f)
+                info = gv(["hist", os.path.join(dd, "h.json"), "--out", dd, "--shards", NCPU] + extra)
+                res = validate_family("TraceCursor", "TraceCursor_C16.cfg" if prop == "C16" else "TraceCursor.cfg", dd, "hist", "%s-hist-t%d-%s" % (prop, t, tag))
+                cov["traces_validated_against_impl"] += res["scenarios"]
+                cov["events_validated"] += res["events"]
+                cov["evaluations"] += res["events"]
+                cov["distinct_nontrivial"] += res["distinct"]
+                cov["states"] += res["states"]
+                cov["transitions"] += res["generated"]
+                cov["trees"].append(dict(tree="t%d" % t, mode=tag, model_states=nstates, histories=len(hs), events=res["events"],
+                                         model_results_compared=info.get("model_results_compared"),
+                                         drift_model_vs_impl=info.get("model_result_drift"), rejected=len(res["rejected"])))
+                if not cov["samples"]:
+                    cov["samples"].append(dict(family="hist-t%d" % t, first_lines=sample_scenario(dd, "hist")))
+                for rej in res["rejected"]:
+                    p = file_violation(prop, rej, dict(module="TraceCursor", cfg="TraceCursor.cfg", family="hist", tree=t))
+                    with open(os.path.join(p, "histories.json"), "w") as f:
+                        json.dump({"corner": t, "hists": hs}, f)
+                    viol.append((p, "%s (history derived from the CursorImpl model of tree t%d) rejected at event %s" % (rej["scn"], t, rej["ev"])))
+            cov["states"] += r["states"]; cov["transitions"] += r["generated"]
+            cov["evaluations"] += r["states"]; cov["distinct_nontrivial"] += r["states"]
+        return cov, viol
+    return run
+
 TRUST = ["TLC/SANY and the Json/IOUtils community modules",
          "harness glue that names a returned (key, value) by exact byte equality with an inserted pair",
          "dictionary ranks: TLC itself verifies that rank order is lexicographic byte order (Bytes!Cmp)"]
@@ -54,7 +116,10 @@ PLANS = {
     "C16": dict(level="model_checking", assumptions=TRUST + ["block loads are counted as absolute seeks on the instrumented source (every block load is preceded by exactly one)"],
                 gen=[G("history", 100, 3000, "TraceCursor", "TraceCursor_C16.cfg"),
                      G("seeks", 32, 800, "TraceCursor", "TraceCursor_C16.cfg"),
-                     G("big", 16, 200, "TraceCursor", "TraceCursor_C16.cfg")]),
+                     G("big", 16, 200, "TraceCursor", "TraceCursor_C16.cfg")],
+                mc=[MC("MCCursor_t15", "MCCursor_t15_fixed.cfg", workers=8),
+                    MC("MCCursor_t50", "MCCursor_t50_fixed.cfg", workers=8),
+                    MC("MCCursor_t9", "MCCursor_t9_fixed.cfg", workers=8, quick=False, timeout=7200)]),
     "C06": dict(level="model_checking", assumptions=TRUST + ["values of merge calls / outputs are named (source, position) by exact byte equality with the values the sources hold"],
                 mc=[MC("MCMerger", "MCMerger.cfg", workers=8)],
                 gen=[G("merge", 400, 15000, "TraceMerger", "TraceMerger.cfg")]),
@@ -65,7 +130,10 @@ PLANS = {
                 gen=[G("spill", 160, 4000, "TraceSorter", "TraceSorter_C08.cfg"),
                      G("sorter_real", 2, 24, "TraceSorter", "TraceSorter_C08.cfg")]),
     "C09": dict(level="model_checking", assumptions=TRUST + ["independent decoder: sequential walk, codec crates, LEB128 framing parser"],
-                gen=[G("format", 400, 12000, "TraceLayout", "TraceLayout_C09.cfg")]),
+                gen=[G("format", 400, 12000, "TraceLayout", "TraceLayout_C09.cfg"),
+                     # the same through a sink that accepts partial writes: recorded offsets must still be right
+                     G("format", 120, 3000, "TraceLayout", "TraceLayout_C09.cfg", extra=["--wsched", "rand7"]),
+                     G("varint_windows", 2, 8, "TraceVarint", "TraceVarint_C09.cfg")]),
     "C11": dict(level="model_checking", assumptions=TRUST + ["stream equality is judged on (length, two independent 31-bit digests)", "read-side: results under a schedule are validated against the same contract specifications as the whole-buffer runs"],
                 mc=[MC("MCIO", "MCIO_W.cfg", workers=2), MC("MCIO", "MCIO_R.cfg", workers=2),
                     MC("MCIO", "MCIO_Wbad.cfg", workers=2, expect="fail:CountOk")],
@@ -97,5 +165,9 @@ PLANS = {
     "C18": dict(level="model_checking", assumptions=TRUST + ["independent decoder: sequential walk, codec crates, LEB128 framing parser"],
                 gen=[G("unsorted", 1200, 40000, "TraceLayout", "TraceLayout_C18.cfg")]),
     "C03": dict(level="model_checking", assumptions=TRUST,
-                gen=[G("history", 160, 6000, "TraceCursor", "TraceCursor.cfg")]),
+                mc=[MC("MCCursor_t50", "MCCursor_t50_asfound.cfg", workers=8, expect="fail:Refines"),
+                    MC("MCCursor_t9", "MCCursor_t9_fixed.cfg", workers=8, quick=False, timeout=7200),
+                    MC("MCCursor_t48", "MCCursor_t48_fixed.cfg", workers=8, quick=False, timeout=7200)],
+                gen=[G("history", 160, 6000, "TraceCursor", "TraceCursor.cfg")],
+                extra=[cursor_model([15, 50], [0, 2, 15, 50], 200, 12)]),
 }
